@@ -587,6 +587,14 @@ class Interp:
                     raise _RaisedExc(Raised('TypeError', fn))
         return env
 
+    def sign_of(self, value):
+        """sign of a printed number where the rule fixed it for this run (``sign_policy``: 'nonnegative' /
+        'negative' for every symbolic number), else None"""
+        pol = getattr(self, 'sign_policy', None)
+        if pol is None or not isinstance(value, Rat) or value.is_const() or value.iszero():
+            return None
+        return pol == 'nonnegative'
+
     def filter_text_is_foreign(self, text):
         cache = self.__dict__.setdefault('_foreign_filter_text', {})
         if text not in cache:
@@ -3591,7 +3599,8 @@ def abstract_str_method(I, fr, b, name, args, kwargs, n):
             raise Unsupported('rfind(): user text after the last literal occurrence', n)
         return C(r)
     if name in ('strip', 'lstrip', 'rstrip') and (not args or args == ['\n'] or args == [' ']):
-        return I.plain(sb.strip(name, args[0] if args else None, strict=True))      # the analysed code's own strip
+        # the analysed code's own strip
+        return I.plain(sb.strip(name, args[0] if args else None, strict=True, sign=I.sign_of))
     if name in ('removeprefix', 'removesuffix') and len(args) == 1 and isinstance(args[0], (str, SegStr)):
         pre = I.seg(args[0])
         if len(pre.segs) == 0:
